@@ -236,7 +236,7 @@ func checkC06(c *km.Ctx) {
 
 	checkMasks(c, s, checkAuth)
 	checkCSRF(c, s, checkAuth)
-	checkKeymasterSigned(c, s)
+	checkKeymasterSigned(c, s, "R-C06-4")
 	checkAuthBits(c, s, checkAuth, "R-C06-5")
 }
 
@@ -440,8 +440,8 @@ func clipS(s string, n int) string {
 	return s
 }
 
-func checkKeymasterSigned(c *km.Ctx, s *km.Sem) {
-	fn := c.MustFunc("R-C06-4", "cmd/keymasterd", "(*RuntimeState).getUsernameIfKeymasterSigned")
+func checkKeymasterSigned(c *km.Ctx, s *km.Sem, rule string) {
+	fn := c.MustFunc(rule, "cmd/keymasterd", "(*RuntimeState).getUsernameIfKeymasterSigned")
 	if fn == nil {
 		return
 	}
@@ -454,7 +454,7 @@ func checkKeymasterSigned(c *km.Ctx, s *km.Sem) {
 		succ = append(succ, rc.Ret)
 	}
 	if len(succ) == 0 {
-		c.R.AnchorLost("R-C06-4", "success return of getUsernameIfKeymasterSigned")
+		c.R.AnchorLost(rule, "success return of getUsernameIfKeymasterSigned")
 		return
 	}
 	// (a) deny list: a comparison between the leaf key fingerprint and an element of KeyDenyFPsshSha256 whose
@@ -487,7 +487,7 @@ func checkKeymasterSigned(c *km.Ctx, s *km.Sem) {
 		} else {
 			found = "no dominating deny-list comparison of the leaf key fingerprint (chain[0].PublicKey) found"
 		}
-		c.R.Add("R-C06-4", km.FuncName(fn), "deny list before success return", posOf(c, ret), "leaf key fingerprint compared with every KeyDenyFPsshSha256 entry; match => refusal", found, ok)
+		c.R.Add(rule, km.FuncName(fn), "deny list before success return", posOf(c, ret), "leaf key fingerprint compared with every KeyDenyFPsshSha256 entry; match => refusal", found, ok)
 	}
 	// (b) CA separation: on every path to a success return the chain anchor was compared with selfRoleCaCertDer
 	notRole := km.Prim{Name: "NotRoleCA", Direct: func(f km.Fact) bool {
@@ -516,7 +516,7 @@ func checkKeymasterSigned(c *km.Ctx, s *km.Sem) {
 		if !ok {
 			found = "a path admits the chain without telling the user CA from the role-requesting CA (they share one key): " + clipS(st.String(), 300)
 		}
-		c.R.Add("R-C06-4", km.FuncName(fn), "role CA separation before success return", posOf(c, ret), "¬bytes.Equal(chain[1].Raw, state.selfRoleCaCertDer) (or no role CA configured)", found, ok)
+		c.R.Add(rule, km.FuncName(fn), "role CA separation before success return", posOf(c, ret), "¬bytes.Equal(chain[1].Raw, state.selfRoleCaCertDer) (or no role CA configured)", found, ok)
 	}
 }
 
